@@ -12,7 +12,7 @@ TRUSTED_BASE = [
     "numpy.fft in arma2psd is the DFT parameter; class PSD cases run in float mode at rtol 1e-9",
     "exact mode for ma / arma_estimate: dyadic data, N <= 40; rtol 1e-6",
 ]
-PARTIAL = ["zeros of the MA polynomial strictly inside the unit circle (Schur-Cohn): oracle only (numpy.roots)"]
+PARTIAL = []   # MA zeros strictly inside the unit circle for every Q: C15.ma_invertible / arma_ma_invertible
 ASSUMPTIONS = ["domain of arma_estimate: Q <= lag, lag + 2P - Q <= N, 2Q < N - P, lag < N, lag - Q >= P (at least P equations); "
                "conditioning predicate on the modified Yule-Walker system cond <= 1e8",
                "model correspondence for arma_estimate only where lag >= 2P (unique least-squares solution); other in-domain cases are "
